@@ -47,7 +47,7 @@ type RS struct {
 }
 
 // NumHidden is the number of hidden perturbations per module (0 = none).
-var NumHidden = []int{16, 2, 7, 9, 3, 4}
+var NumHidden = []int{17, 2, 7, 10, 3, 4}
 
 // ID encodes the rule's content class (module, resource, variant) and its table index. Rule
 // managers reuse the controller (and the rule object) of an earlier load for a rule that is
@@ -156,6 +156,12 @@ func BuildFlow(r RS) *flow.Rule {
 			}
 			if r.Hid == 13 {
 				x.WarmUpColdFactor = 5
+			}
+		case 16:
+			// a threshold that differs from the plain blocker's by less than any tolerance a float comparison might
+			// allow itself (it still blocks every request: 0 + batch > 1e-9)
+			if r.Var == 1 {
+				x.Threshold = 1e-9
 			}
 		case 14, 15:
 			// rules on an associated resource nobody enters (count 0: threshold 0 still blocks, 1e9 never does)
@@ -287,6 +293,11 @@ func BuildBreaker(r RS) *cb.Rule {
 				if r.Hid == 6 {
 					x.Threshold = 0.6
 				}
+			}
+		case 9:
+			// an error-count threshold a hair above the plain one (a count reaches it one error later)
+			if r.Var == 1 {
+				x.Threshold = 1.000000001
 			}
 		case 7, 8:
 			if r.Var == 0 {
